@@ -1,0 +1,175 @@
+//go:build verif
+
+package lintcmd
+
+// Exported entry points for the external verification harness (properties C11 and C12).
+// This file is only compiled with the build tag "verif". It adds no behaviour: every function
+// converts its arguments to the package's own types and calls the unexported function it names.
+
+import (
+	"bytes"
+	"encoding/gob"
+	"go/token"
+	"io"
+	"os"
+
+	"honnef.co/go/tools/analysis/lint"
+	"honnef.co/go/tools/lintcmd/runner"
+
+	"golang.org/x/tools/go/analysis"
+)
+
+// VerifC12Diag is a flat, exported image of diagnostic (without fixes and related information).
+type VerifC12Diag struct {
+	File                    string
+	Off, Line, Col          int
+	EndFile                 string
+	EndOff, EndLine, EndCol int
+	Category                string
+	Message                 string
+	Severity                int // severityError, severityWarning, severityIgnored
+	MergeIf                 int // lint.MergeStrategy
+	BuildName               string
+}
+
+// VerifC12Run is an exported image of lintResult.
+type VerifC12Run struct {
+	CheckedFiles []string
+	Diagnostics  []VerifC12Diag
+}
+
+func verifC12In(d VerifC12Diag) diagnostic {
+	return diagnostic{
+		Diagnostic: runner.Diagnostic{
+			Position: token.Position{Filename: d.File, Offset: d.Off, Line: d.Line, Column: d.Col},
+			End:      token.Position{Filename: d.EndFile, Offset: d.EndOff, Line: d.EndLine, Column: d.EndCol},
+			Category: d.Category,
+			Message:  d.Message,
+		},
+		Severity:  severity(d.Severity),
+		MergeIf:   lint.MergeStrategy(d.MergeIf),
+		BuildName: d.BuildName,
+	}
+}
+
+func verifC12Out(d diagnostic) VerifC12Diag {
+	return VerifC12Diag{
+		File: d.Position.Filename, Off: d.Position.Offset, Line: d.Position.Line, Col: d.Position.Column,
+		EndFile: d.End.Filename, EndOff: d.End.Offset, EndLine: d.End.Line, EndCol: d.End.Column,
+		Category: d.Category, Message: d.Message,
+		Severity: int(d.Severity), MergeIf: int(d.MergeIf), BuildName: d.BuildName,
+	}
+}
+
+func verifC12Result(r VerifC12Run) lintResult {
+	res := lintResult{CheckedFiles: append([]string(nil), r.CheckedFiles...)}
+	for _, d := range r.Diagnostics {
+		res.Diagnostics = append(res.Diagnostics, verifC12In(d))
+	}
+	return res
+}
+
+// VerifC12MergeRuns is runFromLintResult on every run followed by mergeRuns.
+// The result is in the order mergeRuns produced it.
+func VerifC12MergeRuns(rs []VerifC12Run) []VerifC12Diag {
+	var runs []run
+	for _, r := range rs {
+		runs = append(runs, runFromLintResult(verifC12Result(r)))
+	}
+	var out []VerifC12Diag
+	for _, d := range mergeRuns(runs) {
+		out = append(out, verifC12Out(d))
+	}
+	return out
+}
+
+// VerifC12EncodeRun encodes one run the way `-f binary` does (one gob stream per run).
+func VerifC12EncodeRun(r VerifC12Run) ([]byte, error) {
+	var buf bytes.Buffer
+	err := gob.NewEncoder(&buf).Encode(verifC12Result(r))
+	return buf.Bytes(), err
+}
+
+// VerifC12DecodeAndMerge is decodeGob followed by mergeRuns (the in-process part of `-merge`).
+func VerifC12DecodeAndMerge(data []byte) ([]VerifC12Diag, error) {
+	runs, err := decodeGob(bytes.NewReader(data))
+	if err != nil {
+		return nil, err
+	}
+	var out []VerifC12Diag
+	for _, d := range mergeRuns(runs) {
+		out = append(out, verifC12Out(d))
+	}
+	return out, nil
+}
+
+// VerifC11PrintOpts are the flags printDiagnostics reads.
+type VerifC11PrintOpts struct {
+	Formatter       string
+	Fail            []string
+	ShowIgnored     bool
+	NoCompileErrors bool
+	Analyzers       []string // names of the registered analyzers
+}
+
+// VerifC11PrintDiagnostics runs (*Command).printDiagnostics on the given diagnostics with the given
+// flag values and returns what it wrote to standard output together with its exit status.
+// Not safe for concurrent use (os.Stdout is redirected for the duration of the call).
+func VerifC11PrintDiagnostics(opts VerifC11PrintOpts, ds []VerifC12Diag) (stdout []byte, exit int, err error) {
+	cmd := NewCommand("staticcheck")
+	cmd.flags.formatter = opts.Formatter
+	cmd.flags.fail = list(opts.Fail)
+	cmd.flags.showIgnored = opts.ShowIgnored
+	cmd.flags.debugNoCompileErrors = opts.NoCompileErrors
+	var cs []*lint.Analyzer
+	for _, name := range opts.Analyzers {
+		cs = append(cs, &lint.Analyzer{
+			Doc:      &lint.RawDocumentation{Title: name, Severity: lint.SeverityWarning},
+			Analyzer: &analysis.Analyzer{Name: name},
+		})
+	}
+	var diags []diagnostic
+	for _, d := range ds {
+		diags = append(diags, verifC12In(d))
+	}
+
+	r, w, err := os.Pipe()
+	if err != nil {
+		return nil, 0, err
+	}
+	done := make(chan []byte)
+	go func() {
+		b, _ := io.ReadAll(r)
+		done <- b
+	}()
+	saved := os.Stdout
+	os.Stdout = w
+	func() {
+		defer func() {
+			os.Stdout = saved
+			w.Close()
+		}()
+		exit = cmd.printDiagnostics(cs, diags)
+	}()
+	stdout = <-done
+	r.Close()
+	return stdout, exit, nil
+}
+
+// VerifC11FilterAnalyzerNames is filterAnalyzerNames on case-folded copies of its arguments.
+// The keys of the result are the case-folded names.
+func VerifC11FilterAnalyzerNames(all []string, selection []string) map[string]bool {
+	m := filterAnalyzerNames(makeCaseFoldedStrings(all), makeCaseFoldedStrings(selection))
+	out := make(map[string]bool, len(m))
+	for k, v := range m {
+		out[k.String()] = v
+	}
+	return out
+}
+
+// VerifC11ParseList is (*list).Set, the parser of the -checks and -fail flag values.
+func VerifC11ParseList(s string) []string {
+	var l list
+	l.Set(s)
+	return []string(l)
+}
